@@ -171,8 +171,9 @@ for suf, base in (("f", "f32"), ("d", "f64")):
         vals = [gen_base(rng, t.base, mode) for _ in range(3)]
         return ecls(vals[0], vals[1], vals[2], ORDERS[rng.below(len(ORDERS))])
 
+    OIDX = {int(o): k for k, o in enumerate(ORDERS)}
     _reg(T("Euler" + suf, base, 4, (lambda v, ecls=ecls, ORDERS=ORDERS: ecls(v[0], v[1], v[2], ORDERS[int(v[3]) % len(ORDERS)])),
-           (lambda o: [o.x, o.y, o.z, float(int(o.order()))]), gen=egen))
+           (lambda o, OIDX=OIDX: [o.x, o.y, o.z, float(OIDX.get(int(o.order()), -1))]), gen=egen))
 
 for dim in (2, 3):
     for suf, base in SUFFIX.items():
